@@ -30,6 +30,17 @@ def _content(addr, n, salt):
     return bytes(((addr + i) * 3 + salt * 17 + i * i) & 0xff for i in range(n))
 
 
+def _internals(mem):
+    """(pending-read records, pending-write records, write lock) of a Memory object, each None when it cannot be
+    identified (private names may change; what cannot be seen is not judged - the wedge it would cause is still caught by
+    the probe requests that follow)."""
+    d = vars(mem)
+    rd = d.get('_read_requests') if isinstance(d.get('_read_requests'), dict) else None
+    wr = d.get('_write_requests') if isinstance(d.get('_write_requests'), dict) else None
+    ln = cfh.find_attr(mem, ('_write_requests_lock',), lambda v: isinstance(v, (vsched.VLock, vsched.VRLock)))
+    return rd, wr, (d[ln] if ln else None)
+
+
 def _force_unlock(lock):
     if hasattr(lock, '_locked'):
         lock._locked = False
@@ -123,10 +134,11 @@ def part_a(job):
                 if bad is not None or pos != addr + n:
                     p.violation('mem:read:request_tiling:%s' % cls, 'read(mem %d, %#x, %d): requests %r do not tile the range in '
                                 'ascending chunks of at most 20 bytes' % (mid, addr, n, [r.hex() for r in reqs][:6]), rp)
-                if cf.mem._read_requests:
+                rd_, wr_, lk_ = _internals(cf.mem)
+                if rd_:
                     p.violation('mem:read:record_left_behind', 'after read(mem %d, %#x, %d) _read_requests=%r' % (
-                        mid, addr, n, list(cf.mem._read_requests)), rp)
-                    cf.mem._read_requests.clear()
+                        mid, addr, n, list(rd_)), rp)
+                    rd_.clear()
             for n in range(0, 77):
                 rp = {'part': 'A', 'op': 'write', 'mem': mid, 'addr': addr, 'len': n, 'progress': with_progress}
                 del obs.events[:]
@@ -172,14 +184,15 @@ def part_a(job):
                 if bad is not None or pos != addr + n:
                     p.violation('mem:write:chunk_tiling:%s' % cls, 'write(mem %d, %#x, %d bytes): chunks %r do not tile the range '
                                 'once, ascending, <= 25 data bytes' % (mid, addr, n, [(r[:5].hex(), len(r) - 5) for r in ws][:6]), rp)
-                if cf.mem._write_requests_lock.locked():
+                rd_, wr_, lk_ = _internals(cf.mem)
+                if lk_ is not None and lk_.locked():
                     p.violation('mem:write:lock_left_held:%s' % cls, 'after write(mem %d, %#x, %d bytes) _write_requests_lock is '
                                 'still held' % (mid, addr, n), rp)
-                    _force_unlock(cf.mem._write_requests_lock)
-                if any(cf.mem._write_requests.get(k) for k in cf.mem._write_requests):
+                    _force_unlock(lk_)
+                if wr_ is not None and any(wr_.get(k) for k in wr_):
                     p.violation('mem:write:record_left_behind:%s' % cls, 'after write(mem %d, %#x, %d bytes) _write_requests=%r' % (
-                        mid, addr, n, {k: len(v) for k, v in cf.mem._write_requests.items()}), rp)
-                    cf.mem._write_requests.clear()
+                        mid, addr, n, {k: len(v) for k, v in wr_.items()}), rp)
+                    wr_.clear()
                 if with_progress and n > 0 and (not prog or prog[-1] != 100 or prog != sorted(prog)):
                     p.violation('mem:write:progress:%s' % cls, 'progress callbacks %r' % (prog,), rp)
         cf.close_link()
@@ -316,9 +329,10 @@ def exec_c06(cfg, devs):
         info['armed'] = False
         ex.freeze()
         info['events_main'] = list(obs.events)
-        info['lock_held'] = cf.mem._write_requests_lock.locked()
-        info['read_records'] = sorted(cf.mem._read_requests)
-        info['write_records'] = {k: len(v) for k, v in cf.mem._write_requests.items() if v}
+        rd_, wr_, lk_ = _internals(cf.mem)
+        info['lock_held'] = lk_.locked() if lk_ is not None else None
+        info['read_records'] = sorted(rd_) if rd_ is not None else None
+        info['write_records'] = {k: len(v) for k, v in wr_.items() if v} if wr_ is not None else None
         info['link_lost'] = cf.link is None
         if cf.link is None:
             # reconnect for the probes
